@@ -57,6 +57,14 @@ def make(rng, sid, hist):
     delim = rng.choice([b"=", b":="]) if kind.startswith("nodelim") else rng.choice(docs.DELIMS)
     g = gen_doc.Gen(rng, delim, comment, hist=hist)
     items = g.document(rng.choice([0, 2, 6, 15]))
+    # a fifth of the files are read in python style (an object created with PYTHON_STYLE=1, layered read): there entries, headers
+    # and the malformed line start in column 0 (an indented line would continue a value) and headers carry no comment
+    python = comment != b"" and rng.random() < 0.2
+    if python:
+        items = [it for it in items if not (it["kind"] == "section" and it.get("tc") is not None)]
+        for it in items:
+            if it["kind"] in ("entry", "section"):
+                it["lines"] = [it["lines"][0].lstrip(b" \t\x0b\x0c\r")] + it["lines"][1:]
     if kind == "nodelim":
         # not in continuation position: the previous line must not be the last line of an entry
         while items and items[-1]["kind"] == "entry":
@@ -65,6 +73,8 @@ def make(rng, sid, hist):
             else:
                 items.pop()
     bad = malformed_line(rng, g, kind)
+    if python:
+        bad = bad.lstrip(b" \t\x0b\x0c\r")
     d1 = gen_doc.render(items)
     rest = b"".join(g.text(0, 10) + b"\n" for _ in range(rng.randint(0, 4)))
     content = d1 + bad + (b"\n" if rest or rng.random() < 0.8 else b"") + rest
@@ -80,7 +90,12 @@ def make(rng, sid, hist):
         s.add("RF", 20, h(b"/etc/prior.conf"), h(pd), h(pc))
         s.add("FREE", 20)
         s.meta["prior"] = 2
-    s.add("RF", 0, h(PATH), h(delim), h(comment))
+    if python:
+        s.meta["python"] = True
+        s.add("NEW", 0, "opt", h(b"PYTHON_STYLE=1"))
+        s.add("RC", 0, h(b"app"), h(b"/usr/etc"), h(b"doc"), h(b"conf"), h(delim), h(comment))
+    else:
+        s.add("RF", 0, h(PATH), h(delim), h(comment))
     s.add("SLOT", 0)
     s.add("ERRLOC")
     return s
@@ -217,6 +232,11 @@ def oracle(s, lines):
     code = KINDS[m["kind"]]
     want = ["rf E%d null" % code, "slot null", "errloc %s %d" % (h(PATH), m["line"])]
     k = m.get("prior", 0)
+    if m.get("python"):
+        got = lines[k:k + 4]
+        if len(got) < 4 or got[0] != "new E0 obj" or not got[1].startswith("rc E%d " % code) or got[3] != want[2]:
+            return "malformed line %r (%s) at line %d, python style: got %r, expected code %d and %r" % (m["bad"], m["kind"], m["line"], got, code, want[2])
+        return None
     if lines[k:k + 3] != want:
         return "malformed line %r (%s) at line %d%s: got %r, expected %r" % (
             m["bad"], m["kind"], m["line"], " after an earlier read with other delimiter characters" if k else "", lines[k:k + 3], want)
@@ -233,6 +253,8 @@ def nontrivial(s, lines):
 
 
 def histogram(s, lines):
+    if s.meta.get("python"):
+        return ["kind_" + s.meta["kind"], "python_style"]
     m = s.meta
     if m.get("tree"):
         return ["tree_" + m["shape"], "tree_kind_" + m.get("kind", "none")] + (["tree_layer_is_regular_file"] if m.get("plain_layer") else [])
